@@ -55,7 +55,7 @@ def run(ctx):
     ctx.trusted += ["scipy / iminuit minimisers and autograd / numdifftools Hessians are oracles: their result is judged against the exact closed form", "hand-written model Fit/Gls.v (closed-form GLS with a certifying exact solve)"]
     ctx.assumptions += ["tolerance 2^-20 for Levenberg-Marquardt, 2^-9 for migrad / Nelder-Mead / Powell (stopping error of the minimiser); p-values are not judged (scipy.stats)"]
     ctx.copy_props()
-    common.tie_pycore(ctx, ["Tie_corr.v"])
+    common.tie_pycore(ctx, ["Tie_corrfit.v"])
 
     import itertools
     uniq = itertools.count()
